@@ -30,6 +30,16 @@ impl<T> RwLock<T> {
     /// Acquire a shared lock
     #[inline]
     pub fn shared(&self) -> RwLockSharedGuard<'_, T> {
+        #[cfg(oxidd_verif)]
+        {
+            use oxidd_core::verif::{self, site};
+            verif::yield_point(site::RWLOCK_SHARED);
+            while !self.lock.try_lock_shared() {
+                verif::spin(site::RWLOCK_SPIN);
+            }
+            return RwLockSharedGuard(self, PhantomData);
+        }
+        #[cfg(not(oxidd_verif))]
         self.lock.lock_shared();
         RwLockSharedGuard(self, PhantomData)
     }
@@ -37,6 +47,16 @@ impl<T> RwLock<T> {
     /// Acquire an exclusive lock
     #[inline]
     pub fn exclusive(&self) -> RwLockExclusiveGuard<'_, T> {
+        #[cfg(oxidd_verif)]
+        {
+            use oxidd_core::verif::{self, site};
+            verif::yield_point(site::RWLOCK_EXCLUSIVE);
+            while !self.lock.try_lock_exclusive() {
+                verif::spin(site::RWLOCK_SPIN);
+            }
+            return RwLockExclusiveGuard(self, PhantomData);
+        }
+        #[cfg(not(oxidd_verif))]
         self.lock.lock_exclusive();
         RwLockExclusiveGuard(self, PhantomData)
     }
